@@ -313,6 +313,29 @@ class Scheduler:
 KL = {"T": ErrorClass.TRANSIENT, "U": ErrorClass.UNKNOWN, "S": ErrorClass.SERVER_ERROR}
 
 
+class _ThreadingProxy:
+    """Stands in for the ``threading`` module inside redress.circuit / redress.budget, so that a
+    lock the component creates *later* (lazily on first use, or again on a state change) is a
+    model lock too and its acquire/release are scheduling points."""
+
+    def __init__(self, real):
+        self._real = real
+
+    def Lock(self):
+        return ModelLock(_current_sched)
+
+    def RLock(self):
+        return ModelLock(_current_sched, reentrant=True)
+
+    def __getattr__(self, name):
+        return getattr(self._real, name)
+
+
+for _m in (circuit_mod, budget_mod):
+    if hasattr(_m, "threading"):
+        _m.threading = _ThreadingProxy(threading)
+
+
 def install_model_locks(obj, sched):
     found = 0
     for name, val in list(vars(obj).items()):
@@ -324,6 +347,8 @@ def install_model_locks(obj, sched):
 
 def build(program, sched):
     """Create the component in its initial state (setup runs sequentially, ticks allowed)."""
+    global _current_sched
+    _current_sched = sched
     clock = E.Clock()
     E.set_clock(clock)
     comp = program["component"]
